@@ -70,6 +70,7 @@ from magpylib._src.utility import check_static_sensor_orient
 from magpylib._src.utility import format_obj_input
 from magpylib._src.utility import format_src_inputs
 from magpylib._src.utility import get_registered_sources
+from magpylib._src.utility import get_style_label
 from magpylib._src.utility import has_parameter
 
 
@@ -436,8 +437,8 @@ def getBH_level2(
         if sumup and len(sources) > 1:
             src_ids = [f"sumup ({len(sources)})"]
         else:
-            src_ids = [s.style.label if s.style.label else f"{s}" for s in sources]
-        sens_ids = [s.style.label if s.style.label else f"{s}" for s in sensors]
+            src_ids = [get_style_label(s) or f"{s}" for s in sources]
+        sens_ids = [get_style_label(s) or f"{s}" for s in sensors]
         num_of_pixels = np.prod(pix_shapes[0][:-1]) if pixel_agg is None else 1
         df = pd.DataFrame(
             data=product(src_ids, range(max_path_len), sens_ids, range(num_of_pixels)),
